@@ -83,6 +83,15 @@ VERDICT = {
     "C17-6": ("C17 K2", "as it stood (same slip as C17-2)"),
     "C18-5": ("C18 D", "as it stood (same slip as C18-3)"),
     "C18-6": ("C18 E", "as it stood"),
+    # fifth round
+    "C03-5": ("C03 K6", "TypeReplaceVisitor completeness kernel added after the miss; replay = in-process daemon vs fresh build"),
+    "C07-5": ("C07 W4", "load_states replay kernel added after the miss"),
+    "C09-5": ("C09 K1b", "as it stood"),
+    "C10-5": ("C10 S2", "option-snapshot set-order kernel added after the miss; replayed over 48 hash seeds"),
+    "C13-5": ("C13 K1d", "missed by the quick tier of K1 (no sub-code in its option pool); code-state matrix over the whole code table added"),
+    "C14-5": ("C14 K3", "Context.set_line kernel added after the miss; verified by running the kernel directly on the patched tree (the seed_eval run had loaded the driver before the kernel was wired)"),
+    "C15-5": ("PENDING", "PENDING"),
+    "C20-5": ("C20 K6", "jump-placement kernel added after the miss; replay = real mypy (INTERNAL ERROR)"),
     # third round
     "C04-3": ("C04", "as it stood (new durable-state keys for the sqlite store)"),
     "C04-4": ("C04", "as it stood (the sub-agent independently re-made the slip of C04-2)"),
